@@ -13,6 +13,7 @@ import ClarabelProofs.Lemmas.ConesCompositePsd
 import ClarabelProofs.Lemmas.ConesNonsymConvex
 import ClarabelProofs.Lemmas.ConesGenPowConvex
 import ClarabelProofs.Lemmas.ConesPsdCongruence
+import ClarabelProofs.Lemmas.PsdBarrier
 
 namespace Clarabel.C15
 open Clarabel
@@ -1021,5 +1022,84 @@ example :
     subst this; simp
 
 end PsdUnscaledSec
+
+/-! ## PSD cone: `logdet_barrier` and `compute_barrier` -/
+section PsdBarrierSec
+open PsdTri PsdBarrier
+
+/-- [S] `PSDTriangleCone::logdet_barrier`, failed Cholesky factorization: the value is
+`T::infinity()` (for vectors of the cone's length; otherwise `waxpby` panics). -/
+theorem psd_logdet_barrier_fail_is_inf {β : Type} [Add β] [Div β] [OfNat β 0] [OfNat β 1]
+    [FloatLike β] (n : Nat) (x dx : Array β) (a : β)
+    (hx : x.size = PsdIndex.triangularNumber n) (hdx : dx.size = PsdIndex.triangularNumber n) :
+    logdetBarrier n x dx a none = .ok PsdBarrier.inf :=
+  logdetBarrier_none n x dx a hx hdx
+
+/-- [S] `PSDTriangleCone::logdet_barrier`, successful factorization with factor `L`: the value
+is `ld + ld` with `ld = Σ_i ln L[(i,i)]` (left fold from `0`), i.e. `CholeskyEngine::logdet`. -/
+theorem psd_logdet_barrier_formula {β : Type} [Add β] [Div β] [OfNat β 0] [OfNat β 1]
+    [FloatLike β] (n : Nat) (x dx : Array β) (a : β) (L : Array β)
+    (hx : x.size = PsdIndex.triangularNumber n) (hdx : dx.size = PsdIndex.triangularNumber n)
+    (hL : L.size = n * n) :
+    logdetBarrier n x dx a (some L)
+      = .ok (sumN n (fun i => log (matOf n L i i)) + sumN n (fun i => log (matOf n L i i))) :=
+  logdetBarrier_some n x dx a L hx hdx hL
+
+/-- [S] a vector of the wrong length makes `logdet_barrier` panic (`assert_eq!` in `waxpby`),
+whatever LAPACK would answer. -/
+theorem psd_logdet_barrier_length_panic {β : Type} [Add β] [Div β] [OfNat β 0] [OfNat β 1]
+    [FloatLike β] (n : Nat) (x dx : Array β) (a : β) (fac : Option (Array β))
+    (h : x.size ≠ PsdIndex.triangularNumber n ∨ dx.size ≠ PsdIndex.triangularNumber n) :
+    ∃ m, logdetBarrier n x dx a fac = .error (.panic m) :=
+  logdetBarrier_panic n x dx a fac h
+
+/-- [S] `PSDTriangleCone::compute_barrier` returns a value exactly when both `logdet_barrier`
+calls do, and then it is `(0 − logdet_barrier(z, dz, α)) − logdet_barrier(s, ds, α)` in this
+operation order. -/
+theorem psd_compute_barrier_eq {β : Type} [Add β] [Sub β] [Div β] [OfNat β 0] [OfNat β 1]
+    [FloatLike β] (n : Nat) (z s dz ds : Array β) (a : β) (facz facs : Option (Array β)) (v : β) :
+    computeBarrier n z s dz ds a facz facs = .ok v ↔
+      ∃ lz ls, logdetBarrier n z dz a facz = .ok lz ∧ logdetBarrier n s ds a facs = .ok ls ∧
+        v = (0 - lz) - ls := by
+  constructor
+  · exact computeBarrier_ok n z s dz ds a facz facs v
+  · rintro ⟨lz, ls, hz, hs, rfl⟩
+    exact computeBarrier_eq n z s dz ds a facz facs lz ls hz hs
+
+/-- [R] under the Cholesky contract for the LAPACK answer (`L` lower triangular with a positive
+diagonal and `L·Lᵀ = mat(x + α·dx)`, the matrix the code hands to `chol1.factor`), the value of
+`logdet_barrier` is `ln det mat(x + α·dx)`, and that determinant is positive. -/
+theorem psd_logdet_barrier_is_log_det (n : Nat) (x dx : Array ℝ) (a : ℝ) (L : Array ℝ)
+    (hx : x.size = PsdIndex.triangularNumber n) (hdx : dx.size = PsdIndex.triangularNumber n)
+    (h : CholContract n (barrierMat x dx a) L) :
+    logdetBarrier n x dx a (some L) = .ok (Real.log (toM n (barrierMat x dx a)).det) ∧
+      0 < (toM n (barrierMat x dx a)).det :=
+  ⟨logdetBarrier_eq_log_det n x dx a L hx hdx h, det_pos_of_contract n _ L h⟩
+
+/-- [R] the whole `compute_barrier` under the Cholesky contract for both factors:
+`−ln det mat(z + α·dz) − ln det mat(s + α·ds)`. -/
+theorem psd_compute_barrier_is_neg_log_det (n : Nat) (z s dz ds : Array ℝ) (a : ℝ)
+    (Lz Ls : Array ℝ) (hz : z.size = PsdIndex.triangularNumber n) (hdz : dz.size = PsdIndex.triangularNumber n)
+    (hs : s.size = PsdIndex.triangularNumber n) (hds : ds.size = PsdIndex.triangularNumber n)
+    (hcz : CholContract n (barrierMat z dz a) Lz) (hcs : CholContract n (barrierMat s ds a) Ls) :
+    computeBarrier n z s dz ds a (some Lz) (some Ls)
+      = .ok (-Real.log (toM n (barrierMat z dz a)).det - Real.log (toM n (barrierMat s ds a)).det) := by
+  rw [computeBarrier_eq n z s dz ds a _ _ _ _
+    (logdetBarrier_eq_log_det n z dz a Lz hz hdz hcz) (logdetBarrier_eq_log_det n s ds a Ls hs hds hcs)]
+  congr 1; ring
+
+/-- non-vacuity of the Cholesky contract: `n = 1`, `x = (4)`, `dx = (5)`, `α = 1`, `L = (3)`. -/
+example : CholContract 1 (barrierMat (#[4] : Array ℝ) #[5] 1) #[3] := by
+  refine ⟨rfl, ?_, ?_, ?_⟩
+  · intro i j hij hj; omega
+  · intro i hi
+    have : i = 0 := by omega
+    subst this; simp [matOf]
+  · ext i j; fin_cases i; fin_cases j
+    simp [toM, matOf, barrierMat, barrierArg, Vec.waxpby, svecToMat, Matrix.mul_apply,
+      PsdIndex.triangularNumber]
+    norm_num
+
+end PsdBarrierSec
 
 end Clarabel.C15
